@@ -217,6 +217,17 @@ Definition vm_aligned_as_ref := vm_aligned_body 202.
 Definition vm_aligned_as_mut := vm_aligned_body 235.
 Definition vm_get_atomic_ref := vm_aligned_body 264.
 
+(* A type parameter `T: AtomicInteger` of get_atomic_ref comes with its value type `T::V`; the two
+   need not have the same alignment (a third-party atomic of 8 bytes whose value type is [u32; 2];
+   AtomicU64 / u64 on 32-bit x86).  at_align is align_of::<T>(), at_valign is align_of::<T::V>(). *)
+Record atomic_ty := { at_size : N; at_align : N; at_valign : N }.
+(* what get_atomic_ref uses of T: `self.get_slice(offset, size_of::<T>())` :261 and
+   `slice.check_alignment(align_of::<T>())` :262 - the alignment of the ATOMIC type T itself, not
+   align_of::<T::V>() (at_valign is not read anywhere in the method) *)
+Definition atomic_ety (T : atomic_ty) : ety := {| e_size := at_size T; e_align := at_align T |}.
+Definition vm_get_atomic_ref_of (m : mode) (gs : get_slice_fn) (T : atomic_ty) (offset : N)
+  : outcome (vresult tref) := vm_get_atomic_ref m gs (atomic_ety T) offset.
+
 (* ------------------------------------------------------------------ VolatileRef *)
 (* pub fn len(&self) :941 *)
 Definition vr_len (r : vref) : N := vr_esz r.
